@@ -17,10 +17,40 @@ def factors(e):
     return [e]
 
 
-def signature(e):
+def single_defs(f):
+    """locals with exactly one definition (initialiser or one assignment) and never address-taken: name -> defining expression"""
+    cache = getattr(f, "_xdefs", None) if hasattr(f, "__dict__") else None
+    defs, cnt = {}, {}
+    for n in f.walk():
+        if n["k"] == "Var" and n.get("dk", "local") != "param":
+            if n.get("c") and n["c"][0] is not None:
+                defs[n["n"]] = n["c"][0]
+                cnt[n["n"]] = cnt.get(n["n"], 0) + 1
+        a = assigned(n)
+        if a:
+            k = lv(a[0])
+            if k:
+                cnt[k] = cnt.get(k, 0) + 1
+                if a[1] == "=" and a[2] is not None:
+                    defs.setdefault(k, a[2])
+        if n["k"] == "Unary" and n["op"] == "&":
+            k = lv(n["c"][0])
+            if k:
+                cnt[k] = cnt.get(k, 0) + 2
+    params = set(p["n"] for p in f.params)
+    return {k: v for k, v in defs.items() if cnt.get(k, 0) == 1 and k not in params and k.isidentifier()}
+
+
+def signature(e, defs=None, depth=0):
     sig = []
     for x in factors(e):
         x = strip(x)
+        # a named temporary holding a size (size_t values_size = nbobjs*nbobjs*sizeof(..)) stands for its definition
+        if defs and depth < 3 and x["k"] == "Ref" and x["n"] in defs:
+            d = strip(defs[x["n"]])
+            if d is not None and (d["k"] == "Binary" and d["op"] == "*" or d["k"] == "SizeOf"):
+                sig.extend(signature(d, defs, depth + 1))
+                continue
         if x["k"] == "SizeOf":
             continue
         v = cval(x)
@@ -49,6 +79,7 @@ def collect(P, units):
     ops = {}   # (rec, field) -> [(signature, function, loc, op)]
     for u in units:
         for f in P.unit(u).funcs(only_main=True):
+            defs = single_defs(f)
             for n in f.walk():
                 if n["k"] == "Call":
                     fn = n.get("fn")
@@ -57,11 +88,11 @@ def collect(P, units):
                         for p in a[:2]:
                             fld = field_of(f, p)
                             if fld:
-                                ops.setdefault(fld, []).append((signature(a[2]), f.name, f.loc(n), fn))
+                                ops.setdefault(fld, []).append((signature(a[2], defs), f.name, f.loc(n), fn))
                     elif fn == "memset" and len(a) == 3:
                         fld = field_of(f, a[0])
                         if fld:
-                            ops.setdefault(fld, []).append((signature(a[2]), f.name, f.loc(n), fn))
+                            ops.setdefault(fld, []).append((signature(a[2], defs), f.name, f.loc(n), fn))
                 a_ = assigned(n)
                 if a_ and a_[1] == "=" and a_[2] is not None:
                     r = strip(a_[2])
@@ -79,7 +110,7 @@ def collect(P, units):
                         elif fn in ("hwloc_tma_malloc", "hwloc_tma_calloc") and len(ar) == 2:
                             ext = ar[1]
                         if ext is not None:
-                            ops.setdefault(fld, []).append((signature(ext), f.name, f.loc(n), fn))
+                            ops.setdefault(fld, []).append((signature(ext, defs), f.name, f.loc(n), fn))
     return ops
 
 
